@@ -117,6 +117,26 @@ Digs10 == <<"0","1","2","3","4","5","6","7","8","9">>
 RECURSIVE DigsOf(_)
 DigsOf(i) == IF i < 10 THEN <<Digs10[i + 1]>> ELSE DigsOf(i \div 10) \o <<Digs10[(i % 10) + 1]>>
 
+\* ---- range declarations, adversarially: every (type, branch form, count token, count written as string / number, kind of
+\* branch value, kind of fallback value).  Expectation: Ok or Err, nothing else (and the code generator must cope with
+\* whatever the parser accepted).
+RTypes == { <<>>, <<"u","8">>, <<"i","8">>, <<"f","3","2">>, <<"f","6","4">> }
+NumToks == { <<"0">>, <<"3","0","0">>, <<"DASH","1">>, <<"1","DOT","5">>, <<"1","e","9","9">>, <<"DASH","1","e","9","9">>, <<"DASH","0">>,
+             <<"1","e","DASH","4","0","0">>, <<"1","8","4","4","6","7","4","4","0","7","3","7","0","9","5","5","1","6","1","6">> }
+StrOnlyToks == { <<"i","n","f">>, <<"N","a","N">>, <<>>, <<"DOT","DOT">>, <<"1","DOT","DOT","EQ">>, <<"5","DOT","DOT","1">> }
+ValueKinds == { "str", "null", "num", "bool", "map", "seq", "empty" }
+ValueNode(k) == CASE k = "str" -> S(<<"x">>) [] k = "null" -> Raw("null") [] k = "num" -> Raw("5") [] k = "bool" -> Raw("true")
+                  [] k = "map" -> MapNode(<< E("s", S(<<"x">>)) >>) [] k = "seq" -> SeqNode(<< S(<<"x">>) >>) [] OTHER -> S(<<>>)
+RangeAdvCase(ty, struct, tok, asNum, vk, fk) ==
+    LET count == IF asNum THEN Raw(Str(tok)) ELSE S(tok)
+        branch == IF struct THEN MapNode(<< E("count", count), E("value", ValueNode(vk)) >>) ELSE SeqNode(<< ValueNode(vk), count >>)
+        fb == IF struct THEN MapNode(<< E("value", ValueNode(fk)) >>) ELSE SeqNode(<< ValueNode(fk) >>) IN
+    Single("range-adv", "any", << E("r", RangeSeq(ty, << branch, fb >>)) >>)
+RangeAdversarial ==
+    { RangeAdvCase(ty, st, tok, FALSE, vk, "str") : ty \in RTypes, st \in BOOLEAN, tok \in NumToks \cup StrOnlyToks, vk \in ValueKinds }
+    \cup { RangeAdvCase(ty, st, tok, TRUE, vk, "str") : ty \in RTypes, st \in BOOLEAN, tok \in NumToks, vk \in {"str", "null"} }
+    \cup { RangeAdvCase(ty, st, <<"0">>, FALSE, "str", fk) : ty \in RTypes, st \in BOOLEAN, fk \in ValueKinds }
+
 \* nesting depth n (recursion of the splitter is inherent in nesting)
 DeepNest(n) == <<
   Single("nested-comps-" \o ToString(n), "ok", << E("a", S(NestedComps(n))) >>)
